@@ -56,5 +56,5 @@ func integerObject(z *big.Int) slip.Object {
 	if z.IsInt64() {
 		return slip.Fixnum(z.Int64())
 	}
-	return (*slip.Bignum)(z)
+	return slip.IntegerFromBig(z)
 }
